@@ -636,6 +636,21 @@ def build_trace(plan, ops, d0t, d0c, rc, out, ref_keys=None, old=None):
                     if not inited:
                         ev.append({"e": "InitGen", "inferred": True})
                         inited = True
+                    if producedT == 0:
+                        # The companion stream is buffered: its header lines may reach the disk after the first record (or, in a
+                        # killed run, never).  Their PRODUCTION is internal and unobservable; the model wants it before the first
+                        # record, so it is placed here: the lines found on disk in file order, then the required keys that never
+                        # made it to the disk.  (Where the bytes appear is still given by the observed writes: FlushC below.)
+                        while producedC < len(pl["lines"]) and pl["lines"][producedC][0] != STATUS:
+                            ev.append({"e": "Header", "k": model_key(pl["lines"][producedC][0]), "inferred": True})
+                            producedC += 1
+                        if producedC == len(pl["lines"]):
+                            have = {model_key(l[0]) for l in pl["lines"]} | ({model_key(pl["torn_key"])} if pl["torn"] and pl["torn_key"] else set())
+                            if pl["torn"] and pl["torn_key"] and pl["torn_key"] != STATUS:
+                                ev.append({"e": "Header", "k": model_key(pl["torn_key"]), "inferred": True})
+                                producedC += 1
+                            for k_ in sorted(set(plan.get("req", [])) - have):
+                                ev.append({"e": "Header", "k": k_, "inferred": True})
                     ev.append({"e": "WriteEvent", "id": rec_id(producedT), "inferred": True})
                     producedT += 1
                 k = 0
